@@ -815,7 +815,9 @@ class C04a(Monitor):
         # an episode: the level reads too low while the tank controller is RUNNING past its initial fill (low / normal / high) and
         # the system is not halted; it ends when the level recovers or the system is halted (a restart begins with a new initial
         # fill, during which a low level is expected: the 2 h limit of C05 applies there)
-        if f == "halt" or not self._too_low(r):
+        if f == "halt" or st == "fill" or not self._too_low(r):
+            # `fill` is only entered from the tank's halt: the system was stopped and restarted (possibly inside one burst of
+            # commands, with no settled instant in between); a new initial fill is in progress
             self.below_since = None
             return
         if self.below_since is None:
